@@ -303,7 +303,42 @@ def replay (P : Progs) (svc : Bool) (issued : List Issued) : List Round → Nat 
       some s!"round={k} {(nexts.head?.map (·.2)).getD ""}"
     else replay P svc issued rs (k + 1) alive
 
+/-- `key=value` counters of an uncontrolled stress line -/
+def kvNat (out : List String) (key : String) : Option Nat :=
+  out.findSome? (fun tok => match tok.splitOn "=" with
+    | [k, v] => if k = key then v.toNat? else none
+    | _ => none)
+
+def kvStr (out : List String) (key : String) : String :=
+  (out.findSome? (fun tok => if tok.startsWith (key ++ "=") then some ((tok.drop (key.length + 1)).toString) else none)).getD "-"
+
+/-- Uncontrolled stress lines are judged against the C11 predicates directly (no model replay):
+    the harness only counts observations each of which is a violation by the property text. -/
+def handleStress (mode : String) (out : List String) : String :=
+  let first := kvStr out "first"
+  match kvNat out "lookups" with
+  | none => "BAD stress output"
+  | some 0 => "BAD stress: no lookups"
+  | some _ =>
+    if mode = "gap" then
+      match kvNat out "missP", kvNat out "missS", kvNat out "mixP", kvNat out "mixS" with
+      | some mp, some ms, some xp, some xs =>
+        if mp + ms > 0 then s!"VIOL gap: a route/service present in both descriptions was not found during an update (pattern misses={mp} service misses={ms}) {first}"
+        else if xp + xs > 0 then s!"VIOL mixture: lookup result not taken from one description (pattern={xp} service={xs}) {first}"
+        else "OK nt b=stress-gap"
+      | _, _, _, _ => "BAD stress gap output"
+    else if mode = "close" then
+      match kvNat out "routedAfterClose", kvNat out "rewatchFailed", kvNat out "missAfterUpdate" with
+      | some rac, some rwf, some mau =>
+        if rac > 0 then s!"VIOL resurrected: lookup routed to a target after its Close returned ({rac}) {first}"
+        else if rwf > 0 then s!"VIOL rewatch: Watch failed after Close of the only watcher of the name returned ({rwf}) {first}"
+        else if mau > 0 then s!"VIOL gap: route of a live watcher not found after UpdateDesc returned ({mau}) {first}"
+        else "OK nt b=stress-close"
+      | _, _, _ => "BAD stress close output"
+    else "BAD stress mode"
+
 def handle : Handler
+  | "stress" :: mode :: _, out => handleStress mode out
   | kind :: _, out =>
     if kind ≠ "P" && kind ≠ "S" then "BAD kind" else
     let svc := kind = "S"
